@@ -103,6 +103,11 @@ def build_cases(ctx):
             if c["cls"] == "chebyshev" and alg_of(o) == "classic":
                 o = ["-a", "s"] + o[2:]                   # classic algorithm on a Chebyshev input crashes: C03's finding
             co.append((c, o))
+    # roots below the double range: both algorithms, both goals
+    for c in G.c01_tiny_root_cases(ctx.rng, ctx.pick(2, 12)):
+        cases.append(c)
+        for o in (["-a", "u", "-G", "a", "-B", "53"], ["-a", "u", "-G", "i"], ["-a", "s", "-G", "a", "-B", "53"], ["-a", "s", "-G", "i"]):
+            co.append((c, with_threads(o)))
     # every secular input also once under the classic algorithm with the default options (C19's finding), and
     # the equation with a zero leading coefficient under both algorithms
     for c in cases:
